@@ -218,6 +218,9 @@ func BuildJava(p *dsl.Program, files map[string][]byte, dir string, withTests bo
 		all = append(all, testSrc...)
 	}
 	r := cli.Run(dir, buildTimeout, nil, nil, "javac", all...)
+	if r.TimedOut {
+		panic("harness: toolchain timed out (machine overloaded?)")
+	}
 	if r.Exit != 0 {
 		r2 := cli.Run(dir, buildTimeout, nil, nil, "javac", append(append([]string{}, base...), mainSrc...)...)
 		if r2.Exit != 0 {
